@@ -21,7 +21,7 @@ TABLE = [
     ("tls_record::parse_tls_record_header", G.record_header, ["C02"]),
     ("tls_record::parse_tls_raw_record", G.raw_record, ["C02", "C06"]),
     ("tls_record::parse_tls_encrypted", G.encrypted_record, ["C02", "C06"]),
-    ("tls_record::parse_tls_plaintext", G.plaintext_record, ["C02", "C03", "C06"]),
+    ("tls_record::parse_tls_plaintext", G.plaintext_record, ["C02", "C03", "C06", "C09"]),
     ("tls_record::parse_tls_record_with_header", G.record_content_standalone, ["C03", "C07"]),
     ("tls_record::tls_parser", G.plaintext_record, ["C16"]),
     ("tls_record::tls_parser_many", G.plaintext_records, ["C16"]),
@@ -30,7 +30,7 @@ TABLE = [
     ("tls_message::parse_tls_message_applicationdata", G.appdata, ["C03"]),
     ("tls_message::parse_tls_message_heartbeat", lambda b: G.heartbeat(b, A1), ["C03"]),
     # handshake
-    ("tls_handshake::parse_tls_message_handshake", G.handshake_message, ["C03", "C04", "C06"]),
+    ("tls_handshake::parse_tls_message_handshake", G.handshake_message, ["C03", "C04", "C06", "C09"]),
     ("tls_handshake::parse_tls_handshake_msg_hello_request", lambda b: unit(MH + "HelloRequest"), ["C04"]),
     ("tls_handshake::parse_tls_handshake_client_hello", G.client_hello, ["C04"]),
     ("tls_handshake::parse_tls_handshake_msg_client_hello", wrap("ClientHello", G.client_hello), ["C04"]),
@@ -52,7 +52,7 @@ TABLE = [
     ("tls_handshake::parse_tls_handshake_msg_next_protocol", wrap("NextProtocol", G.next_protocol), ["C04"]),
     ("tls_handshake::parse_tls_handshake_msg_key_update", lambda b: ctor(MH + "KeyUpdate", b.u(8)), ["C04"]),
     # extensions
-    ("tls_extensions::parse_tls_extension", G.extension(G.GENERIC_TYPES), ["C05", "C06"]),
+    ("tls_extensions::parse_tls_extension", G.extension(G.GENERIC_TYPES), ["C05", "C06", "C09"]),
     ("tls_extensions::parse_tls_client_hello_extension", G.extension(G.CLIENT_TYPES), ["C05", "C06"]),
     ("tls_extensions::parse_tls_server_hello_extension", G.extension(G.SERVER_TYPES), ["C05", "C06"]),
     ("tls_extensions::parse_tls_extensions", G.extension_list(G.GENERIC_TYPES), ["C05"]),
